@@ -227,4 +227,15 @@ def chainServe (fs : FS) (cs : ChainSite) (r : CReq) : CResp :=
       let u := if cs.site.pathPrefix = [slash] then u0 else trimPathPrefix u0 cs.site.pathPrefix
       guarded fs cs r (authUrl fs cs u0.path u)
 
+/-- the URL basicauth, internal and the content handlers see for this request (none: rejected
+before the chain) -/
+def finalUrl (fs : FS) (cs : ChainSite) (r : CReq) : Option Url :=
+  match parseRequestURI r.target with
+  | none => none
+  | some u0 =>
+    if cs.site.pathPrefix ≠ [slash] ∧ !hasPrefix u0.path cs.site.pathPrefix then none
+    else
+      let u := if cs.site.pathPrefix = [slash] then u0 else trimPathPrefix u0 cs.site.pathPrefix
+      some (authUrl fs cs u0.path u)
+
 end Casket.Chain
